@@ -591,6 +591,25 @@ func (sc *SpecCtx) call(e *SExpr) (*Val, error) {
 		}
 		g.ghostSorts["$stored:"+selName(e.Args[0])] = "Bool"
 		return &Val{T: g.ghostTerm(sc.cur, "$stored:"+selName(e.Args[0])), Ty: boolType}, nil
+	case "at_call":
+		// at_call(sel, E): the value E had right before the most recent call of sel
+		if sc.callee || len(e.Args) != 2 {
+			return nil, fmt.Errorf("at_call(selector, expr) is only meaningful inside the function itself")
+		}
+		gn := snapName(selName(e.Args[0]), e.Args[1])
+		if _, ok := g.ghostSorts[gn]; !ok {
+			return nil, fmt.Errorf("at_call: no call matching %s seen before this point", selName(e.Args[0]))
+		}
+		return &Val{T: g.ghostTerm(sc.cur, gn), Ty: g.ghostTypes[gn]}, nil
+	case "loaded":
+		if sc.callee || len(e.Args) != 1 {
+			return nil, fmt.Errorf("loaded(field) is only meaningful inside the function itself")
+		}
+		gn := "$loaded:" + selName(e.Args[0])
+		if _, ok := g.ghostSorts[gn]; !ok {
+			return nil, fmt.Errorf("loaded: the function never reads a field named %s", selName(e.Args[0]))
+		}
+		return &Val{T: g.ghostTerm(sc.cur, gn), Ty: g.ghostTypes[gn]}, nil
 	case "sent":
 		if sc.callee || len(e.Args) != 1 {
 			return nil, fmt.Errorf("sent(field) is only meaningful inside the function itself")
